@@ -60,13 +60,13 @@ def membership_case(draw):
     n = draw(st.one_of(st.integers(1, 40), st.sampled_from([1, 2, 64, 100, 1000])))
     # engines by name, or as scipy QMCEngine objects of dimension d + 1 ("obj:<name>": a fresh, equally seeded object per call)
     engine = draw(st.sampled_from([None, None, "Halton", "Sobol", "LHC", "obj:Halton", "obj:Sobol", "obj:LHC"]))
-    return dict(P=P, n=n, engine=engine, seed=draw(st.integers(0, 2 ** 31 - 1)))
+    return dict(P=P, n=n, engine=engine, seed=draw(gens.seed_value()))
 
 
 @st.composite
 def large_case(draw):
     """n = 1e5 samples (the upper end of the stated range), all engines"""
-    return dict(P=draw(cloud()), n=100000, engine=draw(st.sampled_from([None, "Halton", "Sobol", "LHC"])), seed=draw(st.integers(0, 2 ** 31 - 1)))
+    return dict(P=draw(cloud()), n=100000, engine=draw(st.sampled_from([None, "Halton", "Sobol", "LHC"])), seed=draw(gens.seed_value()))
 
 
 def body_membership(case):
@@ -145,7 +145,7 @@ def uniform_case(draw):
     d = len(P[0])
     dirs = draw(gens.array((4, d), -1.0, 1.0, styles=("raw",)))
     ws = draw(gens.array((4, len(P)), 0.05, 1.0, styles=("raw",)))
-    return dict(P=P, dirs=dirs, ws=ws, seed=draw(st.integers(0, 2 ** 31 - 1)), n=20000)
+    return dict(P=P, dirs=dirs, ws=ws, seed=draw(gens.seed_value()), n=20000)
 
 
 def body_uniform(case):
@@ -204,7 +204,7 @@ def est_case(draw):
     sysd = draw(matrix_system(m=(2, 4), n=(2, 5), ub_kinds=("finite", "finite", "inf"), K_kinds=("none", "scalar", "vector"),
                               base_kinds=("none", "scalar", "vector")))
     return dict(system=sysd, n=draw(st.integers(1, 30)), engine=draw(st.sampled_from([None, None, "Halton", "Sobol", "LHC"])),
-                seed=draw(st.integers(0, 2 ** 31 - 1)), use_l1=draw(st.booleans()), l1_t=draw(st.floats(0.15, 0.85)),
+                seed=draw(gens.seed_value()), use_l1=draw(st.booleans()), l1_t=draw(st.floats(0.15, 0.85)),
                 relative=draw(st.sampled_from([True, True, False])))
 
 
@@ -228,7 +228,7 @@ def body_est(case):
         est = sv.make_estimator()
         with np.errstate(all="ignore"):
             with unchanged("est", estimator=est):
-                X = np.asarray(est.sample_in_hull(n=n, seed=seed, engine=engine, l1=l1, relative=rel))
+                X = np.asarray(getattr(est, "sample_in_gamut" if seed % 2 else "sample_in_hull")(n=n, seed=seed, engine=engine, l1=l1, relative=rel))
             X2 = np.asarray(est.sample_in_gamut(n=n, seed=seed, engine=engine, l1=l1, relative=rel))
     check(X.shape == (n, sv.m), "est:shape", f"requested {n} samples of {sv.m} receptors, got {X.shape}")
     check(np.array_equal(X, X2), "est:seed-not-reproducible", "same seed gives different samples")
